@@ -198,6 +198,31 @@ Example C07_example_overloaded_literals :
            (6, Some 9, MError); (7, Some 4, MOk); (8, Some 8, MOk); (9, None, MError)]).
 Proof. exact example_twolits. Qed.
 
+(* calls whose actual is itself a use site (an overloaded literal, a nested overloaded call): the
+   complete context resolves as a whole (`resolve_x`); in the analyser the actual gets its reference
+   from the check_call of the stage of `disambiguate` that singled the subprogram out
+   (`site_result_x`).  Agreement of the two on the family is TESTED at every such site by
+   checks/c07.py, not proved. *)
+Example C07_example_overloaded_actuals :
+  family_program prog_conv = true /\
+  spec_program prog_conv =
+    [(1, ADecl 20); (2, ADecl 2); (3, ADecl 21); (4, ADecl 2); (5, ADecl 20); (6, ADecl 22); (7, AError); (8, AError)] /\
+  observed cfg_now prog_conv =
+    Some ([(1, Some 20, MOk); (2, Some 2, MOk); (3, Some 21, MOk); (4, Some 2, MOk); (5, Some 20, MOk); (6, Some 22, MOk);
+           (7, None, MError); (8, None, MError)],
+          [(1, Some 20, MOk); (2, Some 2, MOk); (3, Some 21, MOk); (4, Some 2, MOk); (5, Some 20, MOk); (6, Some 22, MOk);
+           (7, None, MError); (8, None, MError)]).
+Proof. exact example_conv. Qed.
+
+(* would-catch: dropping the check_call after the return-type stage leaves the actual without a reference *)
+Theorem C07_return_stage_check_dropped_refuted :
+  let convs := [mkEnt 20 4 (KFunc (TOth 10) (TOth 12)) None; mkEnt 21 4 (KFunc (TOth 10) (TOth 13)) None] in
+  let reds := [mkEnt 2 0 (KLit (TOth 10)) None; mkEnt 6 0 (KLit (TOth 11)) None] in
+  resolve_x (DOver convs) (DOver reds) (XName 2 0) (TOth 12) = (ADecl 20, ADecl 2) /\
+  site_result_x 4 (XName 2 0) (TOth 12) (LkOver convs) (LkOver reds) = mkXres (Some 20) (Some 2) MOk (Some 3%nat) /\
+  site_result_x_gen (Some 3%nat) 4 (XName 2 0) (TOth 12) (LkOver convs) (LkOver reds) = mkXres (Some 20) None MOk (Some 3%nat).
+Proof. exact return_stage_check_dropped_refuted. Qed.
+
 Check C07_cache_coherent :
   forall t d s rs,
     disciplined [] (t ++ [OLookup d]) -> run cfg_now [] t = Some (s, rs) ->
@@ -230,3 +255,5 @@ Print Assumptions C07_char_literal_refuted.
 Print Assumptions C07_example_nesting.
 Print Assumptions C07_example_homograph_pair.
 Print Assumptions C07_example_overloaded_literals.
+Print Assumptions C07_example_overloaded_actuals.
+Print Assumptions C07_return_stage_check_dropped_refuted.
